@@ -12,7 +12,7 @@
 #define MAX_LINE_LEN (CAP)
 #endif
 
-int g_st[9];
+int g_st[10];
 /* all int ghosts live in ONE array so that loop/function write sets have one entry for them (the cost of dfcc's
  * per-write check grows with the number of entries) */
 #define g_remaining g_st[0]
@@ -24,6 +24,7 @@ int g_st[9];
 #define g_sc_from g_st[6]
 #define g_sc_k g_st[7]
 #define g_sc_e g_st[8]
+#define g_T g_st[9]
 char* gp_host; int* gp_lineno;
 const char** gp_f0; const char** gp_f1; const char** gp_f2; const char** gp_f3; const char** gp_f4; const char** gp_f5; _Bool* gp_isint;
 int g_lineno0, g_total;
@@ -31,30 +32,36 @@ int g_maxlen;                              /* == MAX_LINE_LEN, for the loop cont
 int g_i;                                   /* ghost field index: "for every field i" */
 
 /* ---- strlen / strtok models on m_buf (see the comment in unit.cpp) -------------------------------------------
- * FIRST_POS(kind): g_sc_k := first position >= g_sc_from inside m_buf with P_kind(m_buf[.]);
- * kind 0: not a blank, 1: blank or NUL, 2: NUL. */
+ * g_T is a ghost "terminator witness": a position with m_buf[g_T] == NUL at or behind every position the models are
+ * asked about.  getline() sets it, strlen() moves it to the NUL it returns, strtok(s != NULL, ..) re-establishes it
+ * (after clear_from / the loop havocs) by ASSERTING that a terminator exists at or behind s inside m_buf (constant
+ * range quantifier) and picking one.
+ * PICK_POS(kind): g_sc_k := SOME position in [g_sc_from, g_T] with P_kind(m_buf[.]); kind 0: not a blank,
+ * 1: blank or NUL, 2: NUL.  The ISO C functions take the FIRST such position, which lies in that range because
+ * P_kind(NUL) holds - so the models admit every real behaviour and more (sound for a safety proof; the extra
+ * behaviours only make the obligations harder).  The assertion in PICK_POS is the memory-safety claim
+ * "the argument is a NUL-terminated string inside m_buf". */
 #define P_KIND(kind, c) ((kind) == 0 ? ((c) != ' ') : ((kind) == 1 ? ((c) == ' ' || (c) == '\0') : ((c) == '\0')))
 char* gp_buf; char* gp_save;
-#define FIRST_POS(kind) \
-   __CPROVER_assert(0 <= g_sc_from && g_sc_from < MAX_LINE_LEN, "string argument points into m_buf"); \
-   __CPROVER_assert(__CPROVER_exists { int j; (0 <= j && j < MAX_LINE_LEN) && (j >= g_sc_from && gp_buf[j] == '\0') }, \
+#define PICK_POS(kind) \
+   __CPROVER_assert(0 <= g_sc_from && g_sc_from <= g_T && g_T < MAX_LINE_LEN && gp_buf[g_T] == '\0', \
                     "string argument is NUL-terminated inside m_buf"); \
    g_sc_k = nondet_int(); \
-   __CPROVER_assume(g_sc_from <= g_sc_k && g_sc_k < MAX_LINE_LEN); \
-   __CPROVER_assume(P_KIND(kind, gp_buf[g_sc_k])); \
-   __CPROVER_assume(__CPROVER_forall { int j; (0 <= j && j < MAX_LINE_LEN) ==> ((g_sc_from <= j && j < g_sc_k) ==> !P_KIND(kind, gp_buf[j])) });
+   __CPROVER_assume(g_sc_from <= g_sc_k && g_sc_k <= g_T); \
+   __CPROVER_assume(P_KIND(kind, gp_buf[g_sc_k]));
 
 int verif_first_nul(int from)
 {
    g_sc_from = from;
-   FIRST_POS(2)
+   PICK_POS(2)
    return g_sc_k;
 }
 size_t verif_strlen(const char* s)
 {
    __CPROVER_assert(__CPROVER_same_object(s, gp_buf), "strlen model: argument points into m_buf");
    g_sc_from = (int)(s - gp_buf);
-   FIRST_POS(2)
+   PICK_POS(2)
+   g_T = g_sc_k;
    return (size_t)(g_sc_k - g_sc_from);
 }
 /* strtok(s, " ") as in ISO C 7.24.5.8 for the one-character delimiter set the slice uses */
@@ -63,11 +70,20 @@ char* verif_strtok(char* s, const char* delim)
    __CPROVER_assert(delim[0] == ' ' && delim[1] == '\0', "strtok model: delimiter set is \" \"");
    if(s == NULL)
       s = gp_save;
+   else
+   {
+      /* a new string: (re-)establish the terminator witness */
+      __CPROVER_assert(__CPROVER_same_object(s, gp_buf) && 0 <= s - gp_buf && s - gp_buf < MAX_LINE_LEN, "strtok model: argument points into m_buf");
+      __CPROVER_assert(__CPROVER_exists { int j; (0 <= j && j < MAX_LINE_LEN) && (j >= s - gp_buf && gp_buf[j] == '\0') },
+                       "string argument is NUL-terminated inside m_buf");
+      g_T = nondet_int();
+      __CPROVER_assume(s - gp_buf <= g_T && g_T < MAX_LINE_LEN && gp_buf[g_T] == '\0');
+   }
    if(s == NULL)
       return NULL;
    __CPROVER_assert(__CPROVER_same_object(s, gp_buf), "strtok model: argument points into m_buf");
    g_sc_from = (int)(s - gp_buf);
-   FIRST_POS(0)                                   /* skip leading delimiters */
+   PICK_POS(0)                                    /* skip leading delimiters */
    if(gp_buf[g_sc_k] == '\0')
    {
       gp_save = NULL;
@@ -75,7 +91,7 @@ char* verif_strtok(char* s, const char* delim)
    }
    g_sc_from = g_sc_k;
    g_sc_e = g_sc_k;                                /* start of the token */
-   FIRST_POS(1)                                   /* end of the token */
+   PICK_POS(1)                                    /* end of the token */
    if(gp_buf[g_sc_k] == '\0')
       gp_save = NULL;
    else
@@ -128,12 +144,13 @@ __CPROVER_ensures(__CPROVER_return_value ==> (off[g_i] == -1 || (0 <= off[g_i] &
 /* fields are handed out left to right: a later field is never set without the earlier one (f0 and f2.. are
  * alternatives), and a field starts behind the terminator of its predecessor */
 __CPROVER_ensures((__CPROVER_return_value && g_i >= 2 && off[g_i] >= 0) ==> off[g_i - 1] >= 0)
-__CPROVER_ensures((__CPROVER_return_value && g_i >= 1 && off[g_i] >= 0 && off[g_i - 1] >= 0) ==> *end_prev < off[g_i])
-__CPROVER_ensures((__CPROVER_return_value && off[0] >= 0) ==> (off[0] == 0 && off[2] == -1 && off[3] == -1 && off[4] == -1 && off[5] == -1))
+__CPROVER_ensures((__CPROVER_return_value && g_i >= 1 && off[g_i] >= 0 && off[g_i - 1] >= 0) ==> off[g_i - 1] < off[g_i])
+__CPROVER_ensures((__CPROVER_return_value && off[0] >= 0) ==> (off[2] == -1 && off[3] == -1 && off[4] == -1 && off[5] == -1))
 /* a field is never empty and never starts with a blank */
 __CPROVER_ensures((__CPROVER_return_value && off[g_i] >= 0) ==> (*c0 != '\0' && *c0 != ' '))
 /* line counter == number of getline() calls; false only after a stream failure */
-__CPROVER_ensures(*lineno_out == g_lineno0 + g_calls && g_consumed + g_remaining == g_total)
+/* (a failed read returns before the line counter is advanced) */
+__CPROVER_ensures(*lineno_out == g_lineno0 + g_calls - (__CPROVER_return_value ? 0 : 1) && g_consumed + g_remaining == g_total)
 __CPROVER_ensures(!__CPROVER_return_value ==> (!g_good && !g_eof))
 ;
 
